@@ -436,6 +436,21 @@ pub closed spec fn deletion_ok(ra: RoomAuthorisations, old_q: DeletionQuery, new
             final(deletion_query).nodes == old(deletion_query).nodes && final(deletion_query).edges == old(deletion_query).edges,
 //@ end
 
+//@ include common/deletion_spec.rs
+//@ obligation L_resigned_source_row_was_authorised props C01 : a source row that a deletion re-dates and re-signs (unit u2c_deletion_build: it is re-dated only together with a removed reference that records the row's author, room and new date) is one the caller may change: by validate_deletion's postcondition the room grants the caller the own-rows right (rows it authored) or the all-rows right (rows of someone else) on the row's entity at the date signed for the row
+pub proof fn L_resigned_source_row_was_authorised(ra: RoomAuthorisations, q0: DeletionQuery, q1: DeletionQuery, t: i64, k: int, row: Node, name: Seq<char>, date: i64)
+    requires
+        deletion_ok(ra, q0, q1, t),                                  // validate_deletion answered Ok
+        0 <= k < q0.edges@.len(), edge_of_row(q0.edges@[k], row, name, date),   // DeletionQuery::build prepared a removal of a reference of `row`
+        row.room_id is Some,
+    ensures
+        !is_system_entity(name),
+        ra.rooms@.contains_key(row.room_id->Some_0),
+        spec_can(ra.rooms@[row.room_id->Some_0], vk_of(ra), name, date, own(row.verifying_key, ra.signing_key.spec_vk())),
+{
+    assert(edge_delete_ok(ra, q0.edges@[k], t));
+}
+
 // ================================================================= the shell around the local verdicts and the hand-over to the writer (C01)
 pub struct MutationParser { x: u8 }
 //@ extract src/database/mutation_query.rs :: struct MutationQuery
